@@ -46,6 +46,7 @@ type State struct {
 	choiceSeq   int
 	hseq        int // number of harness tape entries consumed
 	conc        map[*Term]uint64 // terms already case-split to a concrete value on this path (immutable map)
+	tm          *threadState     // thread mode bookkeeping
 }
 
 type pendingGo struct {
@@ -79,6 +80,9 @@ func (st *State) clone() *State {
 	n.threads = make([]*Thread, len(st.threads))
 	for i, t := range st.threads {
 		n.threads[i] = t.clone()
+	}
+	if st.tm != nil {
+		n.tm = st.tm.clone()
 	}
 	return n
 }
